@@ -29,9 +29,11 @@ def masked_mse_loss(
     loss : float
         Masked mean squared error loss.
     """
+    # broadcast the per-sample mask over the feature axes of the predictions
+    # (predictions may be of shape (n_samples,) or (n_samples, n_features))
+    mask = jnp.reshape(mask, mask.shape + (1,) * (predictions.ndim - mask.ndim))
     return jnp.mean(
-        optax.squared_error(predictions=predictions, targets=targets)
-        * mask[:, jnp.newaxis]
+        optax.squared_error(predictions=predictions, targets=targets) * mask
     )
 
 
